@@ -129,5 +129,10 @@ c02_describe (void)
 #else
             " no_lut=0"
 #endif
+#ifdef IMATH_HALF_ENABLE_FP_EXCEPTIONS
+            " fpexc=1"
+#else
+            " fpexc=0"
+#endif
         ;
 }
